@@ -203,9 +203,25 @@ def seq(xs):
 _SYMBOLIC = [False]     # set by the engine while generating VCs so that seq([...]) of constants is a z3 term
 
 
+def smart_length(t):
+    """Length of a z3 sequence term with concatenations / units / empties resolved arithmetically"""
+    k = t.decl().kind() if z3.is_app(t) else None
+    if k == z3.Z3_OP_SEQ_CONCAT:
+        tot = None
+        for c in t.children():
+            l = smart_length(c)
+            tot = l if tot is None else tot + l
+        return tot
+    if k == z3.Z3_OP_SEQ_UNIT:
+        return z3.IntVal(1)
+    if k == z3.Z3_OP_SEQ_EMPTY:
+        return z3.IntVal(0)
+    return z3.Length(t)
+
+
 def length(s):
     if is_z(s):
-        return z3.Length(s)
+        return z3.simplify(smart_length(s))
     return len(s)
 
 
@@ -213,7 +229,10 @@ def at(s, i):
     if any_z(s, i):
         s = _lift(s, None)
         return s[i]
-    return s[i]
+    try:
+        return s[i] if i >= 0 else -(10 ** 18)
+    except IndexError:
+        return -(10 ** 18)        # concrete mode: an out-of-range position (only ever used under a length guard)
 
 
 def cat(*ss):
@@ -252,3 +271,53 @@ def define(name, argsorts, body):
     f = z3.Function(name, *(list(argsorts) + [z3.BoolSort()]))
     DEFS[name] = body
     return f
+
+
+def pointwise_eq(a, b, name='k'):
+    """a == b for sequences, stated element by element (z3 is weak on extensional sequence equalities, strong on
+    lengths and nth): clauses [len a == len b, forall k: a[k] == b[k]]"""
+    if not any_z(a, b):
+        return [list(a) == list(b)]
+    a2 = _lift(a, None)
+    b2 = _lift(b, None)
+    return [z3.Length(a2) == z3.Length(b2), All(0, z3.Length(a2), lambda k: a2[k] == b2[k], name)]
+
+
+def _flatten_seq(t):
+    """flatten a z3 sequence term into atoms: ('u', int term) for unit items, ('s', seq term) for opaque parts"""
+    k = t.decl().kind() if z3.is_app(t) else None
+    if k == z3.Z3_OP_SEQ_CONCAT:
+        out = []
+        for c in t.children():
+            out.extend(_flatten_seq(c))
+        return out
+    if k == z3.Z3_OP_SEQ_UNIT:
+        return [('u', t.arg(0))]
+    if k == z3.Z3_OP_SEQ_EMPTY:
+        return []
+    if k == z3.Z3_OP_SEQ_EXTRACT:
+        inner = _flatten_seq(t.arg(0))
+        o, l = z3.simplify(t.arg(1)), z3.simplify(t.arg(2))
+        if all(a[0] == 'u' for a in inner) and z3.is_int_value(o) and z3.is_int_value(l):
+            o, l = o.as_long(), l.as_long()
+            if 0 <= o and o + l <= len(inner):
+                return inner[o:o + l]
+    return [('s', t)]
+
+
+def concat_eq(a, b):
+    """a == b for sequences built by concatenation, decided part by part when both sides flatten to the same shape
+    (units against units, opaque parts against opaque parts): z3 is fast on the resulting integer equalities and slow on
+    the extensional equality of two differently nested concatenations.  Falls back to a == b otherwise."""
+    if not any_z(a, b):
+        return [list(a) == list(b)]
+    a2, b2 = _lift(a, None), _lift(b, None)
+    fa, fb = _flatten_seq(a2), _flatten_seq(b2)
+    if len(fa) == len(fb) and all(x[0] == y[0] for x, y in zip(fa, fb)):
+        out = []
+        for x, y in zip(fa, fb):
+            if x[1].eq(y[1]):
+                continue
+            out.append(x[1] == y[1])
+        return out or [True]
+    return [a2 == b2]
